@@ -510,6 +510,15 @@ def native_division(ops: List[Any]) -> bool:
     return all(sizes[i] is None or sizes[i] == cnt[find(i)] for i in range(n))
 
 
+WORK = [0]  # constraint evaluations done by Extender: the deterministic unit in which enumeration budgets are expressed
+EVALS_PER_SECOND = 25000  # calibration of the budgets below (an unloaded core of the reference machine); budgets never read the clock
+
+
+def work_now() -> float:
+    """elapsed work in nominal seconds (evaluations / EVALS_PER_SECOND)"""
+    return WORK[0] / EVALS_PER_SECOND
+
+
 class K3:
     """Three-valued / interval evaluation of posted constraint trees under a partial assignment:
     booleans are True / False / None (unknown); integers are closed intervals (lo, hi).  A constraint that is already
@@ -662,6 +671,7 @@ def _vars_of(t: Any, acc: Set[int]) -> None:
 
 
 class Extender:
+    # every constraint evaluation is counted in WORK (see work_now)
     """decides whether an assignment of the caller's variables extends to all posted constraints (backtracking over the
     auxiliary variables that still occur in an undetermined constraint; three-valued pruning)"""
 
@@ -674,13 +684,14 @@ class Extender:
             _vars_of(c, acc)
             self.cvars.append(acc)
         self.k3 = K3(self.doms)
-        self.t0 = time.time()
+        self.t0 = work_now()
         self.budget = budget_s
 
     def sat(self, fixed: Dict[int, Any]) -> bool:
         assign = dict(fixed)
         pending = []
         for idx, c in enumerate(self.cons):
+            WORK[0] += 1
             r = self.k3.ev(c, assign)
             if r is False:
                 return False
@@ -721,7 +732,7 @@ class Extender:
         return True
 
     def _branch(self, assign: Dict[int, Any], pending: List[int]) -> bool:
-        if time.time() - self.t0 > self.budget:
+        if work_now() - self.t0 > self.budget:
             raise TimeoutError
         # unit propagation: a constraint with one free variable left restricts that variable's values; a forced value is taken at once
         forced: List[int] = []
@@ -738,6 +749,7 @@ class Extender:
                 keep = []
                 for val in dom:
                     assign[v] = val
+                    WORK[0] += 1
                     if self.k3.ev(self.cons[idx], assign) is not False:
                         keep.append(val)
                 assign.pop(v, None)
@@ -752,6 +764,7 @@ class Extender:
                     good0 = True
                     for j in pending:
                         if v in self.cvars[j]:
+                            WORK[0] += 1
                             r0 = self.k3.ev(self.cons[j], assign)
                             if r0 is False:
                                 good0 = False
@@ -800,6 +813,7 @@ class Extender:
             good = True
             for idx in pending:
                 if v in self.cvars[idx]:
+                    WORK[0] += 1
                     r = self.k3.ev(self.cons[idx], assign)
                     if r is False:
                         good = False
@@ -834,10 +848,10 @@ def cross_check(rep: Report, label: str, func: str, items: List[Tuple[str, Insta
     """ENC-X: guards the reference schema itself.  On the cheap instances the projection of the posted constraints onto the
     caller's variables is enumerated and must equal the graph-theoretic definition; it can only add a violation (with witness)."""
     rep.rule("ENC-X", "on the small instances the projection of the posted constraints onto the caller's variables equals the graph-theoretic definition (guards the reference schemas; can only add violations)")
-    t0 = time.time()
+    t0 = work_now()
     checked = skipped = 0
     for desc, inst, ids, spec in items:
-        if time.time() - t0 > total_budget_s:
+        if work_now() - t0 > total_budget_s:
             skipped += 1
             continue
         proj = projection(inst, ids, budget_s=each_s)
